@@ -2,3 +2,7 @@
 from contracts.C10_polars_failure_cases import PolarsCoerceFailureCases
 
 CONTRACTS = [PolarsCoerceFailureCases]
+
+from contracts.C08_polars_column_checks import PolarsCheckNullable, PolarsCheckUnique  # noqa: E402  (the row masks of nullability / uniqueness)
+
+CONTRACTS += [PolarsCheckNullable, PolarsCheckUnique]
